@@ -39,12 +39,15 @@ struct ThreadProg { int d; std::vector<OpSpec> phase[2]; std::vector<double> see
 struct Item { int from, seq; std::unique_ptr<SU_vector> v; };
 struct Mail { std::mutex m; std::vector<Item> box[4]; };
 struct Turn {
-  std::mutex m; std::condition_variable cv; int nthreads; bool sequential; int phase_done[2] = {0, 0}; int turn = 0;
+  std::mutex m; std::condition_variable cv; int nthreads; bool sequential; int phase_done[2] = {0, 0}; int turn = 0; int arrived[2] = {0, 0};
   // concurrent: barrier between the phases; sequential: strict rotation thread 0 phase 0, thread 1 phase 0, ..., thread 0 phase 1, ...
   void begin(int t, int phase) {
     std::unique_lock<std::mutex> lk(m);
-    if (sequential) cv.wait(lk, [&] { return turn == phase * nthreads + t; });
-    else if (phase == 1) cv.wait(lk, [&] { return phase_done[0] == nthreads; });
+    if (sequential) { cv.wait(lk, [&] { return turn == phase * nthreads + t; }); return; }
+    if (phase == 1) cv.wait(lk, [&] { return phase_done[0] == nthreads; });
+    // start barrier: all threads enter the phase together, which maximises the overlap of their library calls
+    arrived[phase]++; cv.notify_all();
+    cv.wait(lk, [&] { return arrived[phase] == nthreads; });
   }
   void end(int, int phase) { std::unique_lock<std::mutex> lk(m); phase_done[phase]++; turn++; cv.notify_all(); }
 };
